@@ -148,7 +148,7 @@ def c12_items(tier: str, seed: int):
     reprs6 = [
         ("missing", ""), ("dup_same", "#[repr(u8)]\n#[repr(u8)]"), ("dup_diff_align", "#[repr(u8)]\n#[repr(align(2))]"),
         ("C", "#[repr(C)]"), ("C_u8", "#[repr(C, u8)]"), ("u8_C", "#[repr(u8, C)]"), ("align", "#[repr(align(4))]"),
-        ("u8_align", "#[repr(u8, align(2))]"),
+        # `repr(u8, align(2))` is left out: it *is* a primitive repr, accepting it would not break the property
     ]
     for name, attrs in reprs6:
         for body in ("pub enum E { A, B, C }", "pub enum E { A = 1, B = 5 }"):
@@ -190,8 +190,9 @@ def c13_items(tier: str, seed: int):
 
     # unknown / mis-cased features
     for f in ["foo", "As_str", "AS_STR", "debug", "display", "Try_From", "tryfrom", "min", "max", "Min", "iterr",
-              "next_front", "sort", "Sorted", "rename", "from", "Iter", "NAMES", "r#as_str", "intostr", "Fromstr",
+              "next_front", "sort", "Sorted", "rename", "from", "Iter", "NAMES", "intostr", "Fromstr",
               "try_into", "len", "table", "auto"]:
+        # (raw identifiers such as r#as_str are left out: whether they name the feature is not documented)
         one("unknown_feature", f)
         one("unknown_feature_among", "as_str, %s, into" % f)
         one("unknown_feature_params", "%s(mode = \"table\")" % f)
